@@ -875,7 +875,8 @@ where
                 data_section.extend_from_slice(&submesh_data);
             }
 
-            current_offset += (self.submeshes.len() * 40) as u32; // Each submesh is 40 bytes
+            // Each submesh is written as 48 bytes (10 x u16, 7 x f32)
+            current_offset += (self.submeshes.len() * 48) as u32;
             submeshes
         } else {
             M2Array::new(0, 0)
